@@ -268,6 +268,15 @@ Error RACFGBuilder::on_instruction(InstNode* inst, InstControlFlow& control_type
               }
             }
 
+            // A virtual register can occupy only one position of a register list - the same register used twice would
+            // have to be allocated to two different physical registers.
+            if (Support::test(flags, RATiedFlags::kLeadConsecutive | RATiedFlags::kUseConsecutive | RATiedFlags::kOutConsecutive)) {
+              const RATiedReg* prev_tied_reg = work_reg->tied_reg();
+              if (prev_tied_reg && prev_tied_reg->has_any_consecutive_flag()) {
+                return make_error(Error::kOverlappedRegs);
+              }
+            }
+
             // Only a register that follows another one in a register list has a consecutive parent - operands that
             // come after the list (index vector of TBL|TBX, sources of VP2INTERSECT) are not part of it.
             RAWorkReg* parent_reg = nullptr;
